@@ -946,3 +946,5 @@ def _run(world: World, plan):
     return common.finish(world, nontrivial, sig)
 
 INFO['rule'] += ' Round-5 additions: file names of 250..255 bytes (their numbered duplicates do not fit), three equally named downloads.'
+
+INFO['rule'] += ' Round-6 additions: the download directory cannot be listed (listdir_fault, PermissionError for the naming code).'
